@@ -5,6 +5,7 @@ CONSTANTS
   TypesC <- TypesTwo
   Depth = "core"
   FieldSet = "core"
+  Entries <- EntriesUntrusted
   MaxOps = 1
   Heavy <- NoOps
   HeavyAfter <- NoOps
